@@ -117,3 +117,83 @@ def shaped_program(shape_names, name="a.c", tail_return=True):
     # statements: 11 header comments + empty + prototype line + '{' + body + '}' + empty + 4 lines of ft_fb
     expected = 11 + 1 + 1 + 1 + nst + 1 + 1 + 4
     return "\n".join(lines) + "\n", expected
+
+
+# legal but less common C (C99 / C11 / GNU spellings): every one is a complete translation unit
+# when put after the 42 header.  Used by C05: whatever the verdict, the run has to end with one.
+RARE_C = [
+    "int\t__attribute__((unused))\tg_counter;\n",
+    "static __attribute__((unused)) int\tg_b = 3;\n",
+    "int\tg_c __attribute__((aligned(8)));\n",
+    "__attribute__((noreturn)) void\tft_die(void);\n",
+    "void\tft_die(void) __attribute__((noreturn));\n",
+    "int\tft_fa(int a __attribute__((unused)))\n{\n\treturn (0);\n}\n",
+    "_Static_assert(sizeof(int) == 4, \"int\");\n",
+    "static_assert(1, \"x\");\n",
+    "_Noreturn void\tft_exit(void);\n",
+    "static inline int\tft_min(int a, int b)\n{\n\treturn (a);\n}\n",
+    "extern int\tg_tab[];\n",
+    "int\tg_tab[3] = {1, 2, 3};\n",
+    "int\tg_mat[2][2] = {{1, 2}, {3, 4}};\n",
+    "struct s_pt\tg_pt = {.x = 1, .y = 2};\n",
+    "int\tg_arr[] = {[0] = 1, [2] = 3};\n",
+    "char\tg_s[] = \"abc\" \"def\";\n",
+    "const char\t*const g_names[] = {\"a\", \"b\", 0};\n",
+    "int\t(*g_fp)(int, char **);\n",
+    "int\t(*g_fps[3])(void);\n",
+    "void\t(*ft_signal(int sig, void (*handler)(int)))(int);\n",
+    "typedef int\t(*t_cmp)(const void *, const void *);\n",
+    "typedef struct s_node\tt_node;\n",
+    "struct s_bits\n{\n\tunsigned int\ta : 3;\n\tunsigned int\tb : 5;\n};\n",
+    "union u_val\n{\n\tint\t\ti;\n\tfloat\tf;\n};\n",
+    "struct s_outer\n{\n\tstruct\n\t{\n\t\tint\tx;\n\t}\tinner;\n};\n",
+    "enum e_col\n{\n\tRED = 1 << 0,\n\tGREEN = 1 << 1\n};\n",
+    "typedef enum e_bool\n{\n\tFALSE,\n\tTRUE\n}\tt_bool;\n",
+    "int\tft_fa(int n, int tab[n])\n{\n\treturn (tab[0]);\n}\n",
+    "int\tft_fa(int tab[static 3])\n{\n\treturn (tab[0]);\n}\n",
+    "int\tft_fa(char *restrict dst, const char *restrict src)\n{\n\treturn (0);\n}\n",
+    "int\tft_fa(void)\n{\n\tint\ta;\n\n\ta = (int){3};\n\treturn (a);\n}\n",
+    "int\tft_fa(void)\n{\n\tint\ta;\n\n\ta = sizeof(int[3]);\n\treturn (a);\n}\n",
+    "int\tft_fa(int a)\n{\n\treturn (a ? a : -a);\n}\n",
+    "int\tft_fa(int a)\n{\n\treturn (a ?: 1);\n}\n",
+    "int\tft_fa(int a)\n{\n\tdo\n\t{\n\t\ta--;\n\t} while (a);\n\treturn (a);\n}\n",
+    "int\tft_fa(int a)\n{\n\tfor (int i = 0; i < a; i++)\n\t\ta--;\n\treturn (a);\n}\n",
+    "int\tft_fa(int a)\n{\n\tswitch (a)\n\t{\n\t\tcase 1:\n\t\t\treturn (1);\n\t\tdefault:\n\t\t\tbreak ;\n\t}\n\treturn (0);\n}\n",
+    "int\tft_fa(int a)\n{\n\tgoto end;\nend:\n\treturn (a);\n}\n",
+    "int\tft_fa(int a)\n{\n\treturn (a, 1);\n}\n",
+    "int\tft_fa(int *p)\n{\n\treturn (*p++ + ++*p - -*p);\n}\n",
+    "int\tft_fa(int a)\n{\n\treturn (a >> 1 << 2 ^ ~a | !a & a % 3);\n}\n",
+    "int\tft_fa(int a)\n{\n\ta <<= 1;\n\ta >>= 1;\n\ta ^= 1;\n\ta |= 1;\n\ta &= 1;\n\ta %= 2;\n\treturn (a);\n}\n",
+    "int\tft_fa(struct s_pt *p)\n{\n\treturn (p->x + (*p).y);\n}\n",
+    "int\tft_fa(void)\n{\n\treturn (L'a' + u'b' + U'c' + '\\x41' + '\\101' + '\\'');\n}\n",
+    "char\t*ft_fa(void)\n{\n\treturn (u8\"x\" \"y\");\n}\n",
+    "double\tft_fa(void)\n{\n\treturn (1e10 + 0x1p-3 + .5f + 1.L + 0b101 + 017 + 0xFFul);\n}\n",
+    "int\tft_fa(void)\n{\n\treturn (__LINE__ + sizeof(__FILE__) + sizeof(__func__));\n}\n",
+    "int\tft_fa(void)\n{\n\t__asm__(\"nop\");\n\treturn (0);\n}\n",
+    "int\tft_fa(int a)\n{\n\treturn (__builtin_expect(a, 0));\n}\n",
+    "int\tft_fa(int a, ...)\n{\n\treturn (a);\n}\n",
+    "int\tft_fa(a, b)\nint\ta;\nint\tb;\n{\n\treturn (a + b);\n}\n",
+    "int\tft_fa(void)\n{\n\tint\ta = 1, b = 2, *c = &a;\n\n\treturn (a + b + *c);\n}\n",
+    "int\tft_fa(void)\n{\n\tstatic int\tcalls;\n\tregister int\ti;\n\tvolatile int\tv;\n\n\ti = 0;\n\tv = i;\n\treturn (calls++ + v);\n}\n",
+    "int\tft_fa(void)\n{\n\t;\n\t;;\n\treturn (0);\n}\n",
+    "int\tft_fa(void)\n{\n\t{\n\t\t{\n\t\t}\n\t}\n\treturn (0);\n}\n",
+    "int\tft_fa(int a)\n{\n\tif (a)\n\t\tif (a > 1)\n\t\t\treturn (2);\n\t\telse\n\t\t\treturn (1);\n\treturn (0);\n}\n",
+    "int\tft_fa(int a)\n{\n\twhile (a--)\n\t\t;\n\treturn (a);\n}\n",
+    "# define MAX(a, b) ((a) > (b) ? (a) : (b))\n# define STR(x) #x\n# define CAT(a, b) a##b\n# define LOG(fmt, ...) printf(fmt, __VA_ARGS__)\n",
+    "#if defined(__GNUC__) && (__GNUC__ >= 4) || !defined(X)\n# define A 1\n#elif 0\n# define A 2\n#else\n# define A 3\n#endif\n",
+    "#ifdef __cplusplus\nextern \"C\" {\n#endif\n\nint\tft_fa(void);\n\n#ifdef __cplusplus\n}\n#endif\n",
+    "#pragma once\n#pragma pack(push, 1)\n#line 42 \"x.c\"\n#error \"no\"\n#warning \"hm\"\n#undef X\n#\n",
+    "#include <stdio.h>\n#include \"libft.h\"\n# include <sys/types.h>\n#include<unistd.h>\n",
+    "# define MULTI(a) \\\n\tdo \\\n\t{ \\\n\t\ta; \\\n\t} while (0)\n",
+    "int\tmain(int argc, char **argv, char **envp)\n{\n\t(void)argc;\n\t(void)argv;\n\t(void)envp;\n\treturn (0);\n}\n",
+    "int\tft_fa(void)\n{\n\treturn ((int)(long)(void *)0);\n}\n",
+    "int\tft_fa(int x)\n{\n\treturn (x <: 0 :> + x);\n}\n",
+    "%:define A 1\n??=define B 2\nint\tg_t<:2:> = <%1, 2%>;\n",
+    "int\tg_a = 1 +\\\n\t2;\nchar\t*g_s = \"a\\\nb\";\n",
+    "long long unsigned int\tg_x;\nunsigned\tg_y;\nshort int\tg_z;\nsigned char\tg_w;\nlong double\tg_v;\n",
+    "_Bool\tg_b;\n_Complex double\tg_c;\n_Atomic int\tg_a;\n_Alignas(16) int\tg_al;\n_Thread_local int\tg_t;\n",
+    "int\tft_fa(void)\n{\n\treturn (_Generic(1, int: 1, default: 0) + _Alignof(int));\n}\n",
+    "typeof(int)\tg_t;\n__typeof__(g_t)\tg_u;\n__extension__ long long\tg_v;\n",
+    "int\tft_fa(void)\n{\n\tint\ta;\n\n\ta = ({ 1; });\n\treturn (a);\n}\n",
+    "int\tg_a;;\n;\nint\tg_b;\n",
+]
